@@ -42,11 +42,22 @@ class TlcResult:
         self.errors = [l for l in out.splitlines() if l.startswith("Error:")]
 
     def tuples(self, tag):
-        """PrintT(<<"tag", ...>>) lines, parsed into python lists."""
+        """PrintT(<<"tag", ...>>) values, parsed into python lists.  TLC pretty-prints long
+        values over several lines (then with a blank after <<): lines are joined until the
+        brackets balance."""
         res = []
-        for line in self.out.splitlines():
-            if line.startswith('<<"%s"' % tag):
-                res.append(parse_tla_value(line))
+        lines = self.out.splitlines()
+        k = 0
+        starts = ('<<"%s"' % tag, '<< "%s"' % tag)
+        while k < len(lines):
+            line = lines[k]
+            if line.startswith(starts):
+                buf = line
+                while not _balanced(buf) and k + 1 < len(lines):
+                    k += 1
+                    buf += "\n" + lines[k]
+                res.append(parse_tla_value(buf))
+            k += 1
         return res
 
     def coverage(self):
@@ -55,6 +66,33 @@ class TlcResult:
         for m in re.finditer(r"<(\w+) line \d+, col \d+ to line \d+, col \d+ of module (\w+)>: (\d+):(\d+)", self.out):
             cov[m.group(2) + "!" + m.group(1)] = (int(m.group(3)), int(m.group(4)))
         return cov
+
+
+def _balanced(s):
+    depth = 0
+    instr = False
+    k = 0
+    while k < len(s):
+        c = s[k]
+        if instr:
+            if c == "\\":
+                k += 1
+            elif c == '"':
+                instr = False
+        elif c == '"':
+            instr = True
+        elif s.startswith("<<", k):
+            depth += 1
+            k += 1
+        elif s.startswith(">>", k):
+            depth -= 1
+            k += 1
+        elif c in "[{(":
+            depth += 1
+        elif c in "]})":
+            depth -= 1
+        k += 1
+    return depth <= 0 and not instr
 
 
 def parse_tla_value(s):
